@@ -34,6 +34,22 @@ type Witness struct {
 	Font   string      `json:"font,omitempty"`
 }
 
+// shortReader is a Resource whose Read hands out at most max bytes per call (legal for an
+// io.Reader); ReadAt and Seek go straight to the underlying reader.
+type shortReader struct {
+	r   *bytes.Reader
+	max int
+}
+
+func (s *shortReader) Read(p []byte) (int, error) {
+	if len(p) > s.max {
+		p = p[:s.max]
+	}
+	return s.r.Read(p)
+}
+func (s *shortReader) ReadAt(p []byte, off int64) (int, error) { return s.r.ReadAt(p, off) }
+func (s *shortReader) Seek(off int64, whence int) (int64, error) { return s.r.Seek(off, whence) }
+
 // refChecksum is the sfnt table checksum: big-endian uint32 word sum of the
 // body zero-padded to a multiple of four.
 func refChecksum(b []byte) uint32 {
@@ -161,6 +177,37 @@ func checkOne(w Witness) (law, msg string) {
 		}
 		if got := len(lds[0].Tables()); got != n {
 			return "reload-tags", fmt.Sprintf("NewLoaders: loader reports %d tables, want %d", got, n)
+		}
+	}
+	// the same through a resource whose Read returns fewer bytes than asked for, as io.Reader
+	// allows (a pipe-backed or buffered file): header, directory and bodies read back unchanged
+	if n >= 1 {
+		chunk := 1 + len(out)%13
+		var lds []*ot.Loader
+		var err error
+		if pv, where := vrun.Catch(func() { lds, err = ot.NewLoaders(&shortReader{r: bytes.NewReader(out), max: chunk}) }); pv != nil {
+			return "panic", fmt.Sprintf("NewLoaders panicked on a resource reading %d bytes at a time: %v at %s", chunk, pv, where)
+		}
+		if err != nil || len(lds) != 1 {
+			return "reload-short-reads", fmt.Sprintf("NewLoaders on a resource whose Read returns at most %d bytes per call: %d loaders, err=%v", chunk, len(lds), err)
+		}
+		tags := lds[0].Tables()
+		if len(tags) != n {
+			return "reload-short-reads", fmt.Sprintf("resource whose Read returns at most %d bytes per call: loader reports %d tables, want %d", chunk, len(tags), n)
+		}
+		for i, tg := range tags {
+			if uint32(tg) != w.Tables[i].Tag {
+				return "reload-short-reads", fmt.Sprintf("resource whose Read returns at most %d bytes per call: Tables() entry %d is %#x, want %#x", chunk, i, uint32(tg), w.Tables[i].Tag)
+			}
+		}
+		for _, t := range w.Tables {
+			var raw []byte
+			if pv, where := vrun.Catch(func() { raw, err = lds[0].RawTable(ot.Tag(t.Tag)) }); pv != nil {
+				return "panic", fmt.Sprintf("RawTable panicked on a resource reading %d bytes at a time: %v at %s", chunk, pv, where)
+			}
+			if err != nil || !bytes.Equal(raw, t.Content) {
+				return "reload-short-reads", fmt.Sprintf("resource whose Read returns at most %d bytes per call: RawTable(%#x) err=%v, %d bytes, want %d", chunk, t.Tag, err, len(raw), len(t.Content))
+			}
 		}
 	}
 	// read back through the library's loader
